@@ -127,6 +127,10 @@ Definition count_sends (t : bt) (i : id) (l : list (bt * id)) : nat :=
 (* ------------------------------------------------------------------ chunk level *)
 Definition bytes := list N.
 
+(* chunk ids of all files of an item stream *)
+Definition data_of (its : list item) : list id :=
+  flat_map (fun it => match it with Other _ _ cs => cs | _ => [] end) its.
+
 (* the file archiver on one file whose chunks are given as byte strings, hashed by `h` *)
 Definition file_sends (h : bytes -> id) (g : gindex) (chunks : list bytes) : list id :=
   filter (fun c => gate Data (ghas g Data c)) (map h chunks).
